@@ -5,8 +5,10 @@ pub mod c04;
 pub mod c06;
 pub mod c07;
 pub mod c08;
+pub mod c09;
 pub mod c10;
 pub mod c11;
+pub mod c12;
 pub mod c19;
 
 use crate::engine::Runner;
@@ -22,8 +24,10 @@ pub fn run(id: &str, r: &mut Runner) {
         "C06" => c06::run(r),
         "C07" => c07::run(r),
         "C08" => c08::run(r),
+        "C09" => c09::run(r),
         "C10" => c10::run(r),
         "C11" => c11::run(r),
+        "C12" => c12::run(r),
         "C19" => c19::run(r),
         _ => {
             println!("HARNESS-ERROR property {id} has no check yet");
